@@ -90,7 +90,10 @@ class PathModel:
                 vals[k] = self.defaults[k]
             else:
                 return None
-        return t.render(vals)
+        out = t.render(vals)
+        if t.parse(out) is None:
+            return None          # a value outside this configuration's vocabulary: the Sid has no path here
+        return out
 
     def rel(self, path):
         p = str(path).replace(os.sep, "/")
